@@ -132,7 +132,7 @@ def run_kani(module, tier, profile="dev", jobs=None, timeout_s=None, extra_filte
     if os.path.exists(out_json):
         os.remove(out_json)
     jobs = jobs or int(os.environ.get("VERIF_JOBS", "12"))
-    timeout_s = timeout_s or (600 if tier == "quick" else 3600)
+    timeout_s = timeout_s or (int(os.environ.get("VERIF_HARNESS_TIMEOUT_S", "1200")) if tier == "quick" else 3600)
     cmd = ["cargo", "kani", "-Z", "stubbing", "-Z", "unstable-options",
            "--output-format", "terse", "-j", str(jobs),
            "--harness-timeout", f"{timeout_s}s", "--export-json", out_json]
